@@ -90,7 +90,7 @@ type rawParkConn struct {
 	entered chan int
 }
 
-const rawCWBound = 5 * time.Second // safety bound of every wait
+const rawCWBound = 20 * time.Second // safety bound of every wait
 
 func (c *rawParkConn) WriteTo(p []byte, addr net.Addr) (int, error) {
 	c.mu.Lock()
